@@ -512,7 +512,9 @@ fn execute_function_match_arms(
       }
       // Normal arm: evaluate the expression and coerce to the declared output kind.
       let out = expression(&arm.expression, Some(&env), p)?;
-      let coerced = coerce_function_output_kind(detach_value(&out), fxn_def, p)?;
+      // the result is a value of its own: an arm that hands back its argument
+      // (`| n => n`) must not return the caller's cells
+      let coerced = coerce_function_output_kind(out.deep_clone(), fxn_def, p)?;
       trace_println!(
         p,
         "{}",
